@@ -151,6 +151,7 @@ private:
 	void check_conf_completion(HRec &r, Attempt &a);
 	bool create_service();
 	void op_recreate();
+	void op_repoint();
 	uint64_t svc_birth_seq = 0;                 // event sequence number at which the current service object was created
 	bool frame_of_current_service(const Frame &f) const;
 	int generation = 0;                         // number of times the service object has been replaced
